@@ -32,9 +32,15 @@ type countingDS struct {
 	armed   atomic.Bool
 	hit     chan struct{}
 	release chan struct{}
+	// the same for the next Put
+	armedPut atomic.Bool
 }
 
 func (c *countingDS) Put(ctx context.Context, k ds.Key, v []byte) error {
+	if c.armedPut.CompareAndSwap(true, false) {
+		c.hit <- struct{}{}
+		<-c.release
+	}
 	c.n.Add(1)
 	return c.Batching.Put(ctx, k, v)
 }
@@ -251,6 +257,79 @@ func runC07(c *vu.Case, t *testing.T) {
 				}
 				out = r1 + "+" + r2 + cacheStr()
 				feats["concurrent"] = true
+			case "rpar", "rparclose":
+				// the other way round: G1 = AddProvider(k, p), held inside its datastore write;
+				// G2 = GetProviders(k) resp. Close, started while G1 is held. Whatever G2 sees (it is concurrent with the
+				// addition), once both have returned the provider must be served, and Close must not have returned while the
+				// addition was still going to touch the datastore.
+				cds.armedPut.Store(true)
+				g1 := make(chan string, 1)
+				go func() {
+					if err := pm.AddProvider(ctx, c07Key(f[1]), peer.AddrInfo{ID: c07Peer(f[2])}); err != nil {
+						g1 <- "err:" + err.Error()
+						return
+					}
+					g1 <- "ok"
+				}()
+				held := false
+				var r1 string
+				select {
+				case <-cds.hit:
+					held = true
+				case r1 = <-g1:
+				}
+				cds.armedPut.Store(false)
+				g2 := make(chan string, 1)
+				go func() {
+					if f[0] == "rpar" {
+						_, err := pm.GetProviders(ctx, c07Key(f[1]))
+						if err != nil {
+							g2 <- "err:" + err.Error()
+							return
+						}
+					} else {
+						pm.Close()
+					}
+					g2 <- "ok"
+				}()
+				early := false
+				if held {
+					select {
+					case <-g2:
+						early = true
+					case <-time.After(25 * time.Millisecond):
+					}
+					if early && f[0] == "rparclose" {
+						before = cds.n.Load()
+					}
+					cds.release <- struct{}{}
+					r1 = <-g1
+				}
+				if !early {
+					<-g2
+				}
+				r2 := "ok"
+				if f[0] == "rparclose" {
+					closed = true
+					if early && cds.n.Load() != before {
+						r2 += "|TOUCHED-DATASTORE-AFTER-CLOSE"
+					}
+					before = cds.n.Load()
+				} else {
+					// the query that counts: after both have returned
+					infos, err := pm.GetProviders(ctx, c07Key(f[1]))
+					if err != nil {
+						r2 = "err:" + err.Error()
+					} else {
+						var ps []string
+						for _, ai := range infos {
+							ps = append(ps, c07Unpeer(ai.ID))
+						}
+						r2 = natList(ps)
+					}
+				}
+				out = r1 + "+" + r2 + cacheStr()
+				feats["concurrent"] = true
 			case "disk":
 				res, _ := cds.Batching.Query(ctx, dsq.Query{Prefix: ProvidersKeyPrefix})
 				es, _ := res.Rest()
@@ -310,10 +389,14 @@ func genC07(r *vu.RNG, c *vu.Case) bool {
 				c.In = append(c.In, fmt.Sprintf("add %d %d", r.Intn(nk), r.Intn(np)))
 			case x < 55:
 				c.In = append(c.In, fmt.Sprintf("get %d", r.Intn(nk)))
-			case x < 85:
+			case x < 70:
 				c.In = append(c.In, fmt.Sprintf("par %d %d", r.Intn(nk), r.Intn(np)))
-			case x < 92:
+			case x < 85:
+				c.In = append(c.In, fmt.Sprintf("rpar %d %d", r.Intn(nk), r.Intn(np)))
+			case x < 90:
 				c.In = append(c.In, "restart")
+			case x < 95:
+				c.In = append(c.In, fmt.Sprintf("rparclose %d %d", r.Intn(nk), r.Intn(np)), fmt.Sprintf("get %d", r.Intn(nk)), "restart")
 			default:
 				c.In = append(c.In, fmt.Sprintf("parclose %d", r.Intn(nk)), fmt.Sprintf("get %d", r.Intn(nk)), "restart")
 			}
